@@ -589,7 +589,27 @@ def template_provenance(repo, fi, recv):
       if isinstance(x, ast.Assign) and any(isinstance(t, ast.Name) and t.id == recv.id
                                            for t in x.targets):
         vals.append(x.value)
-    if vals and all(isinstance(v, (ast.Constant, ast.JoinedStr)) for v in vals):
+    def literal_choice(v, depth=0):
+      """a string literal, a choice between such (`a if c else b`, `a or b`),
+      a concatenation or %-combination of such, or a local defined that way"""
+      if isinstance(v, ast.Constant):
+        return isinstance(v.value, str)
+      if isinstance(v, ast.JoinedStr):
+        return all(isinstance(p_, ast.Constant) for p_ in v.values)
+      if isinstance(v, ast.IfExp):
+        return literal_choice(v.body, depth) and literal_choice(v.orelse, depth)
+      if isinstance(v, ast.BinOp) and isinstance(v.op, ast.Add):
+        return literal_choice(v.left, depth) and literal_choice(v.right, depth)
+      if isinstance(v, ast.BinOp) and isinstance(v.op, ast.Mod):
+        # a template filled with literal pieces is still a template of the code
+        args = v.right.elts if isinstance(v.right, ast.Tuple) else [v.right]
+        return literal_choice(v.left, depth) and all(literal_choice(a_, depth) for a_ in args)
+      if isinstance(v, ast.Name) and depth < 3:
+        inner = [x.value for x in walk_local(fi.node) if isinstance(x, ast.Assign) and any(
+            isinstance(t, ast.Name) and t.id == v.id for t in x.targets)]
+        return bool(inner) and v.id not in fi.params and all(literal_choice(i_, depth + 1) for i_ in inner)
+      return False
+    if vals and all(literal_choice(v) for v in vals):
       return True, 'local literal template'
   return False, ('`%s` is not a template of the code: if it carries compiled SQL '
                  '(with user string data) the %% / {} characters of the data are '
